@@ -1,5 +1,125 @@
-"""Residual reconstruction (HOM-b over the evaluator's residual-building exits). Built in a later step."""
+"""Residual reconstruction in the evaluator (HOM-b): when an operand of a node is a
+residual, the evaluator must rebuild *the same node kind* from the (partially
+evaluated) children *in the same positions*.
+
+For every arm V of Evaluator::partial_interpret_internal (and for eval_if /
+get_attr, which receive the children of If / GetAttr as parameters) every AST
+constructor call is compared with what the AST's own builder does for that
+constructor (builder map derived by constant propagation): it must build variant
+V, and each argument bound to field g must derive from V.g (or from a constant for
+the documented cases `true && r` / `false || r`). Every residual value that leaves
+the arm must come out of such a constructor (or be the interpreted child itself for
+If, whose branches are returned as they are).
+"""
+from lib import hom, shape, cfg, panics
+from lib.facts import callee
+from lib.rulelib import get_fn, short
+
+CORE = "cedar_policy_core::"
+EV = CORE + "evaluator::Evaluator::"
+EXPRKIND = CORE + "ast::expr::ExprKind"
+AST_BUILDER = CORE + "ast::expr::ExprBuilder<T>"
+SKIP = ("val", "unknown", "new", "source_loc", "expr_kind", "clone", "with_maybe_source_loc", "into_expr_kind", "data", "is_ref", "is_ref_set",
+        "slots", "subexpressions", "record_arc", "try_type_of", "is_projectable", "eq_shape", "hash_shape", "substitute", "substitute_typed")
+# child that may legitimately be replaced by a literal constant in a rebuilt node
+CONST_OK = {("And", "left"), ("Or", "left"), ("BinaryApp", "arg2"), ("BinaryApp", "arg1")}
+
+
+def ctor(c, t):
+    for p in (CORE + "ast::expr::Expr::<T>::", CORE + "ast::expr::Expr::"):
+        if c.startswith(p) and "::" not in c[len(p):]:
+            return "S:" + c[len(p):]
+    return None
+
+
+def check_events(chk, rule, facts, f, vn, events, bm, fields, L_of=None):
+    n = 0
+    for e in events:
+        m = e["ctor"][2:]
+        if m in SKIP:
+            continue
+        b = bm.get(m)
+        if b is None or "undecided" in b:
+            # record / set builders are not decidable by constant propagation: name agreement
+            ok = m.lower().startswith(vn.lower()[:3]) or (vn == "ExtensionFunctionApp" and m == "call_extension_fn")
+            n += 1
+            chk.ob(rule, "%s->%s" % (vn, m), ok, "%s arm rebuilds with %s (builder body not decidable; name agreement)" % (vn, m), where=f.where(e["line"]), fn=f.name,
+                   key="%s:%s:%s" % (rule, vn, m))
+            continue
+        problems = []
+        if b["variant"] != vn:
+            problems.append("it builds %s" % b["variant"])
+        else:
+            for g, ps in b["fields"].items():
+                for p in ps:
+                    idx = p - 2
+                    if idx < 0 or idx >= len(e["args"]):
+                        continue
+                    labs = {x for x in e["args"][idx] if x.startswith(vn + ".")}
+                    want = "%s.%s" % (vn, g)
+                    if labs and want not in labs:
+                        problems.append("field %s is rebuilt from %s" % (g, sorted(labs)))
+                    if not labs and g in fields and (vn, g) not in CONST_OK:
+                        problems.append("field %s is rebuilt from something that does not derive from %s" % (g, want))
+        n += 1
+        chk.ob(rule, "%s->%s@L%s" % (vn, m, e["line"]), not problems,
+               "in the %s arm the residual is rebuilt with Expr::%s%s" % (vn, m, (": " + "; ".join(problems)) if problems else " — same node, children in place"),
+               where=f.where(e["line"]), fn=f.name, key="%s:%s:%s:%s" % (rule, vn, m, ";".join(problems)),
+               sample={"arm": vn, "ctor": m, "builds": b["sig"], "args": [sorted(a) for a in e["args"]]})
+    return n
 
 
 def check(chk, facts, rule):
-    return
+    bm = hom.builder_map(facts, AST_BUILDER, ("ast::expr::ExprKind",))
+    f = get_fn(chk, facts, rule, EV + "partial_interpret_internal")
+    if f is None:
+        return
+    ev = hom.arm_events(facts, f, "ast::expr::ExprKind", ctor)
+    if ev is None:
+        chk.lost(rule, "match on ExprKind in partial_interpret_internal")
+        return
+    r = facts.adts.get(EXPRKIND)
+    total = 0
+    arms_with = 0
+    for vi, arm in sorted(ev["arms"].items()):
+        vn = r["variants"][vi]["name"]
+        fields = [x[0] for x in r["variants"][vi]["fields"] if "ast::expr::Expr<" in x[1]]
+        n = check_events(chk, rule, facts, f, vn, arm["events"], bm, fields)
+        total += n
+        arms_with += 1 if n else 0
+    # helpers that receive the children as parameters
+    for helper, vn, plabels in ((EV + "eval_if", "If", {2: {"If.test_expr"}, 3: {"If.then_expr"}, 4: {"If.else_expr"}}),
+                                (EV + "get_attr", "GetAttr", {2: {"GetAttr.expr"}, 3: {"GetAttr.attr"}})):
+        g = get_fn(chk, facts, rule, helper)
+        if g is None:
+            continue
+        L = shape.Labels(g, None, None, param_labels=plabels)
+        events = []
+        for bb, t in g.calls():
+            nm = ctor(callee(t), t)
+            if nm:
+                events.append({"ctor": nm, "args": [L.operand_labels(o) for o in t[2]], "line": t[1].get("l"), "block": bb})
+        for cl in facts.closures_of(helper):
+            pass
+        vi = [i for i, v in enumerate(r["variants"]) if v["name"] == vn][0]
+        fields = [x[0] for x in r["variants"][vi]["fields"] if "ast::expr::Expr<" in x[1]]
+        bm2 = dict(bm)
+        # ite_arc takes Arcs: same positions as ite
+        total += check_events(chk, rule, facts, g, vn, events, bm2, fields)
+    chk.floor(rule, "residual constructor sites", total, 14)
+    chk.ob(rule, "arms", arms_with >= 9, "%d arms of partial_interpret_internal rebuild residuals" % arms_with, where=f.where(), fn=f.name)
+    # a residual leaving the UnaryApp / Like / Is / HasAttr arms must have been rebuilt (never the bare child residual)
+    L = shape.Labels(f, None, shape.variant_field_seed("ast::expr::ExprKind"),
+                     call_labels=lambda c, t: (["CTOR"] if ctor(c, t) and ctor(c, t)[2:] not in SKIP else None))
+    PV = CORE + "ast::partial_value::PartialValue"
+    bare = []
+    nres = 0
+    for b, s in f.stmts():
+        if s[0] == "a" and s[2][0] == "agg" and s[2][1][0] == "adt" and s[2][1][1] == PV and s[2][1][2] == "Residual":
+            labs = L.operand_labels(s[2][2][0])
+            nres += 1
+            if "CTOR" not in labs:
+                bare.append((s[3], sorted(labs)))
+    chk.ob(rule, "residuals-are-rebuilt", not bare and nres >= 8,
+           "%d PartialValue::Residual values are built in partial_interpret_internal; each wraps the result of an AST constructor%s" % (nres, "" if not bare else ", except %s (a bare child residual drops the operator)" % bare),
+           where=f.where(bare[0][0] if bare else None), fn=f.name, key="%s:bare-residual" % rule, sample={"residual_values": nres})
